@@ -171,11 +171,11 @@ pub fn edges() -> Vec<i128> {
 
 pub fn run(ctx: &Ctx) -> Report {
     let mut rep = Report::new("C16");
-    rep.rule = "cases = i128 nanosecond counts n; oracle = floor division with explicit sign handling in i128, compared with from_timespec(floor, mod), with M-cal fields, with total_nanoseconds() and with the zoned constructors. \
+    rep.rule = "cases = i128 nanosecond counts n; oracle = floor division with explicit sign handling in i128, compared with from_timespec(floor, mod), with M-cal fields, with total_nanoseconds() and with the zoned constructors (fixed offsets, UTC, and generated zones: counts within 2 s of every switch instant with fractional parts 0 / 1 / 999 999 999 / random). \
                 Enumerated: k*1e9 + e for k at 0, +-1, +-2, both range ends +-1, i64 extremes +-1, e in {0, +-1, +-2, +-999999999, 5e8}; i128 extremes; ns arguments around 1e9 for the validating constructors. Random: half log-uniform, half uniform in the success range, both signs. \
                 distinct_nontrivial = distinct counts n."
         .into();
-    rep.required_classes = vec!["negative_non_multiple", "negative_multiple", "zero_crossing", "range_edge", "i128_extreme", "seconds_beyond_i64", "ns_below_1e9_accepted", "ns_at_or_above_1e9_refused"];
+    rep.required_classes = vec!["negative_non_multiple", "negative_multiple", "zero_crossing", "range_edge", "i128_extreme", "seconds_beyond_i64", "ns_below_1e9_accepted", "ns_at_or_above_1e9_refused", "zone_constructor_negative_fractional_near_switch"];
     if let Err(e) = cal::self_test() {
         rep.inconclusive.push(format!("model self-test failed: {}", e));
         return rep;
@@ -203,6 +203,54 @@ pub fn run(ctx: &Ctx) -> Report {
             l.distinct_hash(Fnv::new().i(n as i64).i((n >> 64) as i64).get());
         }
         l.op_n("from_total_nanoseconds (3 constructors)", 3 * per);
+    });
+    // wl 4: the zone-taking constructor on generated zones: counts within two seconds of every switch instant of
+    // the zone (table transitions on the UTC scale, leap records), with every kind of fractional part, on both
+    // sides of the epoch; must equal from_timespec(floor, mod, zone) in instant, fields and local time type
+    let zcfg = crate::gen::zone::ZoneCfg::lookup();
+    run_cases(ctx, &mut rep, 4, ctx.n(20_000, 400_000), |l, rng, _| {
+        let z = crate::gen::zone::gen_zone(rng, &zcfg);
+        let b = match crate::mon::common::build(&z) {
+            Ok(b) => b,
+            Err(_) => return,
+        };
+        let tzr = b.tz.as_ref();
+        let mut instants: Vec<i64> = vec![];
+        for &(t, _) in z.transitions.iter().take(ctx.inner(12) as usize) {
+            let x = z.leaps.switch(t);
+            if x > i64::MIN as i128 + 4 && x < i64::MAX as i128 - 4 {
+                instants.push(x as i64);
+            }
+        }
+        for &(t, _) in z.leaps.0.iter().take(3) {
+            instants.push(t);
+        }
+        instants.push(0);
+        instants.push(rng.range(-4_000_000_000, 4_000_000_000));
+        let mut k = 0;
+        for x in instants {
+            for ds in [-2i64, -1, 0, 1] {
+                for frac in [0u32, 1, 999_999_999, rng.below(1_000_000_000) as u32] {
+                    let n = (x as i128 + ds as i128) * G + frac as i128;
+                    let secs = n.div_euclid(G);
+                    let ns = n.rem_euclid(G) as u32;
+                    let a = facade::dt_from_total_ns(n, tzr);
+                    let bb = if secs >= i64::MIN as i128 && secs <= i64::MAX as i128 { facade::dt_from_timespec(secs as i64, ns, tzr) } else { Err(E::OutOfRange) };
+                    cmp_dt(l, "DateTime::from_total_nanoseconds(.., generated zone)", n, &a, &bb);
+                    if let Ok(d) = &a {
+                        if d.total_nanoseconds() != n {
+                            l.violation("nanosecond split: DateTime::total_nanoseconds() does not give the count back", format!("DateTime::from_total_nanoseconds({}, {})", n, z.describe()), format!("{}", n), format!("{}", d.total_nanoseconds()));
+                        }
+                        if n < 0 && frac != 0 {
+                            l.class("zone_constructor_negative_fractional_near_switch");
+                        }
+                    }
+                    k += 1;
+                    l.distinct_hash(Fnv::new().i(n as i64).i((n >> 64) as i64).i(z.transitions.len() as i64).get());
+                }
+            }
+        }
+        l.op_n("from_total_nanoseconds (zone) vs from_timespec (zone)", 2 * k);
     });
     let nss: [u32; 9] = [0, 1, 999_999_998, 999_999_999, 1_000_000_000, 1_000_000_001, 2_000_000_000, u32::MAX - 1, u32::MAX];
     run_enum(ctx, &mut rep, 3, nss.len() as u64 * 4, |l, _rng, i| {
